@@ -126,9 +126,15 @@ class SchemaField:
 
         try:
             dtm.datetime.strptime(value, format)
-            return None  # all good
         except Exception as exc:
             return str(exc)
+
+        # strptime also takes unpadded parts and embedded spaces
+        layout = re.escape(format).replace("%Y", "[0-9]{4}").replace("%f", "[0-9]+")
+        layout = re.sub("%[mdHMS]", "[0-9]{2}", layout)
+        if not re.fullmatch(layout, value):
+            return f"value does not match layout '{format}'"
+        return None  # all good
 
     @staticmethod
     def _validate_value_monthyear(value):
